@@ -81,27 +81,43 @@ func (g *gen) property(p string) bool {
 	case "C01":
 		g.genQR()
 		g.stageQR()
+		g.dictFamily("qr")
+		g.genRSCrafted(285, 256, 0)
+		g.genRSCraftedQR()
+		g.genRSCraftedQRContent()
 	case "C02":
 		g.genDM()
 		g.stageDM()
+		g.dictFamily("dm")
+		g.genRSCrafted(301, 256, 1)
+		g.genRSCraftedDM()
 	case "C03":
 		g.genAztec()
 		g.stageAztec()
+		g.dictFamily("aztec")
+		for _, f := range [][3]int{{19, 16, 1}, {67, 64, 1}, {301, 256, 1}, {1033, 1024, 1}, {4201, 4096, 1}} {
+			g.genRSCrafted(f[0], f[1], f[2])
+		}
 	case "C04":
 		g.genPDF()
 		g.stagePDF()
+		g.dictFamily("pdf")
 	case "C05":
 		g.genC128()
 		g.stageC128()
+		g.dictFamily("c128")
 	case "C06":
 		g.genEAN(true)
 		g.stageEAN()
+		g.dictFamily("ean")
 	case "C07":
 		g.genC39C93()
 		g.stageC39C93()
+		g.dictFamily("c39")
 	case "C08":
 		g.genCodabar()
 		g.genTof()
+		g.dictFamily("c08")
 	case "C09":
 		g.genScale()
 	case "C10":
@@ -114,6 +130,9 @@ func (g *gen) property(p string) bool {
 		g.genAztec()
 		g.genPDF()
 		g.genEAN(true)
+		for _, f := range []string{"qr", "dm", "aztec", "pdf", "c128", "c39", "ean", "c08"} {
+			g.dictFamily(f)
+		}
 	case "C11":
 		g.genRender()
 	case "C12":
@@ -289,6 +308,25 @@ func (g *gen) genC128() {
 			}
 		}
 	}
+	// extremal expansion: strict alternations of two classes (every neighbouring pair forces a code-set switch, a shift
+	// or a latch) at every length up to the limit of 80 runes and one beyond — the longest symbols the encoder can produce
+	// (seed w05: a buffer sized one symbol character short of the true worst case)
+	alts := [][2]string{{"\x00", "a"}, {"\x1f", "\x7f"}, {"\n", "z"}, {"12", "a"}, {"1", "a"}, {"\u00f1", "12"}, {"A", "\x01"}, {"99", "\x01"}, {"\u00f4", "a"}, {"\u00f4", "\x02"}}
+	for _, p := range alts {
+		for n := 1; n <= 81; n++ {
+			if !g.thorough() && n > 6 && n < 70 && n%9 != 0 {
+				continue
+			}
+			var b strings.Builder
+			runes := 0
+			for k := 0; runes < n; k++ {
+				t := p[k%2]
+				b.WriteString(t)
+				runes += len([]rune(t))
+			}
+			both(b.String())
+		}
+	}
 	// transition-heavy random strings
 	for i := 0; i < g.n(1500, 40000); i++ {
 		n := 1 + g.intn(12)
@@ -343,6 +381,16 @@ func (g *gen) genC39C93() {
 		for _, o := range opts {
 			g.emit("c39 %s %d %d", hx(s), o[0], o[1])
 			g.emit("c93 %s %d %d", hx(s), o[0], o[1])
+		}
+	}
+	// extremal expansion: long contents in which every character expands to a pair (full ASCII) / none does, and the
+	// lengths at which the Code 93 weights wrap (20 for C, 15 for K) several times over
+	for _, alpha := range []string{"a", "a%", "\x00\x7f", "A", "A-", "%$+/", "z~", "09"} {
+		for _, n := range []int{14, 15, 16, 19, 20, 21, 29, 30, 31, 39, 40, 41, 42, 43, 44, 45, 59, 60, 61, 86, 87, 100, 129, 200} {
+			if !g.thorough() && n > 61 && alpha != "a%" && alpha != "A-" {
+				continue
+			}
+			emit(strings.Repeat(alpha, n/len(alpha)+1)[:n])
 		}
 	}
 	// exhaustive lengths 0..2 over ASCII 0..127 (contains the 43-character alphabet and '*')
@@ -469,6 +517,7 @@ func (g *gen) ilist(n, max int) string {
 
 func (g *gen) genGF() {
 	for _, f := range gfFields {
+		g.genRSCrafted(f[0], f[1], f[2])
 		g.emit("gf.tables %d %d %d", f[0], f[1], f[2])
 		g.emit("gf.inv %d %d %d", f[0], f[1], f[2])
 		g.emit("gf.div0 %d %d %d %d", f[0], f[1], f[2], 1+g.intn(f[1]-1))
